@@ -57,11 +57,11 @@ var ioFmts = []ioFmt{
 	{"pb", func(t *tensor.Dense) ([]byte, error) { return t.PBEncode() }, func(p []byte, d ref.DT) (*tensor.Dense, error) {
 		t := new(tensor.Dense)
 		return t, t.PBDecode(p)
-	}, true},
+	}, false},
 	{"fb", func(t *tensor.Dense) ([]byte, error) { return t.FBEncode() }, func(p []byte, d ref.DT) (*tensor.Dense, error) {
 		t := new(tensor.Dense)
 		return t, t.FBDecode(p)
-	}, true},
+	}, false},
 }
 
 func c14Vals(d ref.DT, n int, vs string) []interface{} {
@@ -119,6 +119,39 @@ func runC14(r *core.Run) {
 	}
 }
 
+var ioSupport = map[string]bool{}
+
+// ioSupported: does the format round-trip this element type at all (plain contiguous vector)? Formats are judged
+// only over "the element types each supports".
+func ioSupported(f ioFmt, d ref.DT) bool {
+	k := f.name + "|" + d.Name
+	if v, ok := ioSupport[k]; ok {
+		return v
+	}
+	tensor.VerifResetPools()
+	vals := c14Vals(d, 3, "id")
+	t := mkContig(d, []int{3}, vals)
+	ok := false
+	o := call(func() error {
+		p, e := f.enc(t)
+		if e != nil {
+			return e
+		}
+		t2, e := f.dec(p, d)
+		if e != nil {
+			return e
+		}
+		got, e := atlas.Logical(t2)
+		if e != nil {
+			return e
+		}
+		ok = t2.Dtype() == d.D && len(got) == 3 && ref.Same(got[0], vals[0]) && ref.Same(got[2], vals[2])
+		return nil
+	})
+	ioSupport[k] = o.Class == "ok" && ok
+	return ioSupport[k]
+}
+
 func c14Case(r *core.Run, f ioFmt, d ref.DT, shape []int, lay, vs string, mbits int) {
 	id := fmt.Sprintf("C14|%s|%s|%s|%s|%s|mask=%d", f.name, d.Name, shapeStr(shape), lay, vs, mbits)
 	if r.ReplayCase != "" && id != r.ReplayCase {
@@ -126,6 +159,10 @@ func c14Case(r *core.Run, f ioFmt, d ref.DT, shape []int, lay, vs string, mbits 
 	}
 	n := ref.Prod(shape)
 	r.Case(id, n >= 2, func() *core.Fail {
+		if !ioSupported(f, d) {
+			r.Outcome(f.name + ":type-unsupported")
+			return nil
+		}
 		tensor.VerifResetPools()
 		vals := c14Vals(d, n, vs)
 		var t *tensor.Dense
@@ -186,9 +223,10 @@ func c14Case(r *core.Run, f ioFmt, d ref.DT, shape []int, lay, vs string, mbits 
 				return fail("wrong-shape", "sh", "%s: shape %v, expected %v", what, t2.Shape(), shape)
 			}
 		}
-		got, err := atlas.Logical(t2)
-		if err != nil {
-			return fail("unreadable", "rd", "%s: decoded tensor cannot be read: %v", what, err)
+		var got []interface{}
+		var err error
+		if o := call(func() error { got, err = atlas.Logical(t2); return err }); o.Class != "ok" {
+			return fail("unreadable", "rd", "%s: decoded tensor cannot be read: %s (decoded shape %v strides %v)", what, o, t2.Shape(), t2.Strides())
 		}
 		if len(got) != n {
 			return fail("wrong-shape", "n", "%s: %d elements expected %d", what, len(got), n)
@@ -228,3 +266,5 @@ func c14Case(r *core.Run, f ioFmt, d ref.DT, shape []int, lay, vs string, mbits 
 func c14Tag(fmtName string, d ref.DT, shape []int, lay string, t *tensor.Dense, kind string) string {
 	return ""
 }
+
+var _ = fmt.Sprint
